@@ -421,6 +421,10 @@ struct SctpInner {
 
     // PR-SCTP: Advanced Peer Ack Point (RFC 3758)
     advanced_peer_ack_tsn: AtomicU32,
+    // Highest cumulative TSN ack received from the peer for data sent by this endpoint
+    // (this endpoint's TSN space; `cumulative_tsn_ack` above is the receive side, in the
+    // peer's TSN space).
+    peer_cumulative_tsn_ack: AtomicU32,
     forward_tsn_pending: AtomicBool,
     forward_tsn_streams: Mutex<Vec<(u16, u16)>>,
     has_pr_sctp: AtomicBool,
@@ -872,6 +876,7 @@ impl SctpTransport {
             answered_init: Mutex::new(None),
             inbound_streams: Mutex::new(HashMap::new()),
             advanced_peer_ack_tsn: AtomicU32::new(0),
+            peer_cumulative_tsn_ack: AtomicU32::new(0),
             forward_tsn_pending: AtomicBool::new(false),
             forward_tsn_streams: Mutex::new(Vec::new()),
             has_pr_sctp: AtomicBool::new(false),
@@ -1539,6 +1544,8 @@ impl SctpInner {
             .map(|v| v as u32)
             .unwrap_or(initial_tsn);
         self.next_tsn.store(initial_tsn, Ordering::SeqCst);
+        self.peer_cumulative_tsn_ack
+            .store(initial_tsn.wrapping_sub(1), Ordering::SeqCst);
 
         let mut init_params = BytesMut::new();
         // Initiate Tag
@@ -1766,6 +1773,8 @@ impl SctpInner {
             Some(a) => a.local_initial_tsn,
             None => {
                 self.next_tsn.store(initial_tsn, Ordering::SeqCst);
+                self.peer_cumulative_tsn_ack
+                    .store(initial_tsn.wrapping_sub(1), Ordering::SeqCst);
                 *self.answered_init.lock() = Some(AnsweredInit {
                     peer_tag: initiate_tag,
                     peer_initial_tsn,
@@ -1928,6 +1937,13 @@ impl SctpInner {
             let num_gap_ack_blocks = buf.get_u16();
             let _num_duplicate_tsns = buf.get_u16();
             let old_rwnd = self.peer_rwnd.swap(a_rwnd, Ordering::SeqCst);
+            if tsn_gt(
+                cumulative_tsn_ack,
+                self.peer_cumulative_tsn_ack.load(Ordering::SeqCst),
+            ) {
+                self.peer_cumulative_tsn_ack
+                    .store(cumulative_tsn_ack, Ordering::SeqCst);
+            }
 
             // Log peer_rwnd to understand flow control
             if a_rwnd < 100000 {
@@ -3635,7 +3651,7 @@ impl SctpInner {
         }
 
         // Advance the advanced peer ack point past consecutive abandoned chunks
-        let last_sacked = self.cumulative_tsn_ack.load(Ordering::SeqCst);
+        let last_sacked = self.peer_cumulative_tsn_ack.load(Ordering::SeqCst);
         let mut advanced = self.advanced_peer_ack_tsn.load(Ordering::SeqCst);
         if tsn_gt(last_sacked, advanced) {
             advanced = last_sacked;
@@ -3705,7 +3721,7 @@ impl SctpInner {
 
     fn create_forward_tsn_chunk(&self) -> Option<Bytes> {
         let advanced = self.advanced_peer_ack_tsn.load(Ordering::SeqCst);
-        let last_sacked = self.cumulative_tsn_ack.load(Ordering::SeqCst);
+        let last_sacked = self.peer_cumulative_tsn_ack.load(Ordering::SeqCst);
         if !tsn_gt(advanced, last_sacked) {
             return None;
         }
